@@ -84,6 +84,7 @@ class Recorder:
         self.library_calls = 0
         self.decoy = None
         self.on_build = None     # optional hook: called with the motif index at the start of every build callback
+        self.arg_as_edge_results = 0
 
     # fast / network flavour -----------------------------------------------------------------
     def fast_builder(self, k, shape, use_library, lib_arg="list", scratch=False):
@@ -122,7 +123,7 @@ class Recorder:
         return build
 
     # custom flavour -------------------------------------------------------------------------
-    def custom_builder(self, j, shape, tuple_result, use_library=False, lib_arg="list", scratch=False):
+    def custom_builder(self, j, shape, tuple_result, use_library=False, lib_arg="list", scratch=False, arg_as_edge=False):
         import gcmpy
         lib = {"clique": gcmpy.clique_motif, "cycle": gcmpy.cycle_motif, "diamond": gcmpy.diamond_motif}
         buf = []
@@ -149,6 +150,10 @@ class Recorder:
                 return es
             if shape == "bare":
                 self.calls.append((j, args, [(args[0], args[1])], "bare"))
+                if arg_as_edge and isinstance(vertices, list) and len(vertices) == 2:
+                    # "a 2-vertex motif IS its vertex pair": the callback hands back the very list it was given (recorded by value above)
+                    self.arg_as_edge_results += 1
+                    return vertices
                 return (args[0], args[1])
             es = shape_edges(shape, args)
             self.calls.append((j, args, list(es), "list"))
@@ -206,6 +211,12 @@ def make_fast_config(rng, allow_empty=False, distinct=True, shared_names=False):
         # the generator is configured by, a name is only a label
         i, j = rng.sample(range(T), 2)
         names[j] = names[i]
+    elif r < 0.33:
+        # names that are members of a str-based Enum (`class Topology(str, Enum)`): strings for every purpose - equal to and hashing
+        # like their value - whose str() and format() are NOT their value
+        import enum
+        E = enum.Enum("Topology", {"T%d" % i: nm for i, nm in enumerate(names)}, type=str)
+        names = [E(nm) for nm in names]
     return {"flavour": rng.choice(["fast", "fast", "network"]), "motifs": [list(m) for m in motifs],
             "names": names, "decoy": rng.random() < 0.25, "lib_arg": rng.choice(["list", "list", "list", "tuple", "ndarray"]), "scratch": rng.random() < 0.15,
             "path": rng.choice(["direct", "main-enum", "main-str", "factory"]), "use_library": rng.random() < 0.7}
@@ -232,7 +243,7 @@ def make_custom_config(rng, force=None):
     return {"flavour": "custom", "motifs": [[list(o), s, n] for o, s, n in motifs], "sizes": sizes, "indices": indices,
             "path": rng.choice(["direct", "main-enum", "main-str", "factory"]), "tuple_result": rng.random() < 0.6,
             "use_library": rng.random() < 0.5, "decoy": rng.random() < 0.25, "lib_arg": rng.choice(["list", "list", "list", "tuple", "ndarray"]),
-            "scratch": rng.random() < 0.15}
+            "scratch": rng.random() < 0.15, "arg_as_edge": rng.random() < 0.4}
 
 
 def columns_of(cfg):
@@ -299,7 +310,7 @@ def build_algorithm(cfg, rec):
         builders = []
         for j, (orbits, shape, style) in enumerate(cfg["motifs"]):
             builders.append(rec.custom_builder(j, shape, cfg["tuple_result"], use_library=cfg.get("use_library", False),
-                                               lib_arg=cfg.get("lib_arg", "list"), scratch=cfg.get("scratch", False)))
+                                               lib_arg=cfg.get("lib_arg", "list"), scratch=cfg.get("scratch", False), arg_as_edge=cfg.get("arg_as_edge", False)))
             namers.append(rec.custom_namer(j, shape, style, sum(orbits), cfg["tuple_result"]))
         params[G.BUILD_FUNCTIONS] = builders
         params[G.EDGE_NAMES] = namers
@@ -403,7 +414,13 @@ def oracle_conservation(res, cfg, jds, jds_before, rec, out, tap, ctx):
             res.violate("network-vertex-set-differs", missing=sorted(set(range(N)) - set(G.nodes()))[:8],
                         extra=[repr(x) for x in set(G.nodes()) - set(range(N))][:8], ctx=ctx); return False
         for v in range(N):
-            if G.nodes[v].get(_jdkey()) != jds_before[v]:
+            ann = G.nodes[v].get(_jdkey())
+            try:
+                # the annotation is the vertex's row of the sequence as the caller gave it (a tuple, a list, a row of a numpy table)
+                same = ann is not None and tuple(int(d) for d in ann) == tuple(jds_before[v]) and len(ann) == len(jds_before[v])
+            except Exception:      # noqa: BLE001
+                same = False
+            if not same:
                 res.violate("network-vertex-annotation-differs", vertex=v, got=repr(G.nodes[v]), want=jds_before[v], ctx=ctx); return False
         got = {upair(e) for e in G.edges()}
         if got != set(want_rows):
@@ -411,7 +428,14 @@ def oracle_conservation(res, cfg, jds, jds_before, rec, out, tap, ctx):
         res.count("network_outputs")
     else:
         jd_out = sut("joint_degrees", lambda: out.joint_degrees)
-        if list(jd_out) != list(jds_before):
+        def _rows(x):
+            # the sequence as carried through may be the caller's own container (list of tuples, numpy table): compared row by row, by value
+            return [tuple(int(d) for d in r) for r in x]
+        try:
+            same = _rows(jd_out) == _rows(jds_before)
+        except Exception:      # noqa: BLE001
+            same = False
+        if not same:
             res.violate("joint-degree-sequence-not-carried-through", got=repr(jd_out)[:200], ctx=ctx); return False
         rows = Counter()
         for e in out.edge_list:
